@@ -29,7 +29,7 @@ func init() {
 		defer os.RemoveAll(dir)
 		exe := filepath.Join(dir, "race13")
 		harn := filepath.Join(h.Root(), "harness")
-		build := exec.Command("go", "build", "-race", "-tags", "verif", "-o", exe, "./cmd/race13")
+		build := exec.Command("go", append(h.GoBuildArgs(), "-race", "-tags", "verif", "-o", exe, "./cmd/race13")...)
 		build.Dir = harn
 		build.Env = append(os.Environ(), "CGO_ENABLED=1")
 		if out, err := build.CombinedOutput(); err != nil {
